@@ -62,6 +62,15 @@ CLAIMED["C20"] = ("Theorems C20_* (coq/Properties/C20.v): an operation's own che
                   "column, an existing tag, a bad slice, mismatched chain operands, an unsupported expression or a join predicate "
                   "with a missing column is rejected with the documented class for every option combination; single ill-typing "
                   "edits of random multi-engine programs are replayed on the real library per run.", "DESIGN.md §4 C20")
+CLAIMED["C03"] = ("Theorems C03_backtrack_sound, C03_apply_with_options_sound, C03_result_engine (coq/Properties/C03.v): in the model of "
+                  "iteration.Engine.backtrack_unary (every commutator, partial projections, transfers into the preferred engine, SQL or "
+                  "iteration sources) and of UnaryOperation.apply with every backtrack/transfer/require combination, a returned relation has "
+                  "the rows (as a list) and columns of the operation applied at the root, lives in the original or (transfer) preferred "
+                  "engine, and require_preferred_engine refuses with EngineError when the operation cannot be placed there. Excluded: finding "
+                  "F2 (projection past a Deduplication, pinned by the suite; known finding), joins as the moved operation and the transfer "
+                  "into an SQL engine after a failed backtracking attempt (decided per run by the correspondence only). Every generated "
+                  "program is built on the real library, processed by a real SQLite<->iteration Processor, executed and compared with the "
+                  "model's tree and the specification's rows; placement clauses are judged on the real tree.", "DESIGN.md §4 C03")
 CLAIMED["C07"] = ("Theorems C07_process_faithful and C07_repeated_process_faithful (coq/Properties/C07.v): for every well-formed multi-engine "
                   "tree over truthful leaves and any state left by earlier process() calls, the model of Processor._process_recursive returns "
                   "the rows of direct evaluation, stores payloads for materializations of the input only (each the content of its node), keeps "
